@@ -18,7 +18,7 @@ CLAIMED = {
    note="Not decided: the full decision procedure as a postcondition (every check has a satisfied query in its scope <=> no check error): it needs a specification-level definition of 'query satisfied in scope', i.e. the Datalog semantics of C05, which is not available as a contract. Error message contents are not specified.",
    technique=T, ref="4/C04"),
  "C05": dict(
-   text="Proof (partial). Leaves with full functional contracts: Term.Equal (all 7 implementations against one interface contract), Predicate.Equal/Match/Clone, FactSet.Insert/InsertAll (set semantics, no-growth => subset), advanceIndexes (lexicographic successor with carry), MatchedVariables Insert/Complete/Clone, World AddFact/AddRule/ResetRules/Clone. Join soundness: the rule-application goroutine is proved to send only bindings that unify every variable position of every body predicate with the fact chosen for it (first occurrence binds, later occurrences passed Term.Equal), with matching arity and name. Fixpoint step: a nil verdict is sent only when an iteration added no fact. The enumeration's stop reasons are under contract per return statement (no fact at all; odometer exhausted with the first index at the last fact; after an error was sent; no predicate). Derivation soundness at the level of heads: Rule.Apply only adds instances of the rule's head (same name and arity, constants of the head in place) and keeps what the target set held; QueryRule's answers are instances of the query's head; FactSet.InsertAll only adds elements of its argument; World.Run is proved to keep every initial fact in place and to add only instances of the head of some rule of the world (only_derived_facts_are_added) unless it returns the timeout error.",
+   text="Proof (partial). Leaves with full functional contracts: Term.Equal (all 7 implementations against one interface contract), Predicate.Equal/Match/Clone, FactSet.Insert/InsertAll (set semantics, no-growth => subset), advanceIndexes (lexicographic successor with carry), MatchedVariables Insert/Complete/Clone, World AddFact/AddRule/ResetRules/Clone. Join soundness: the rule-application goroutine is proved to send only bindings that unify every variable position of every body predicate with the fact chosen for it (first occurrence binds, later occurrences passed Term.Equal), and that every fact chosen for a body predicate matches it in name, arity and every constant position (matched invariants over the odometer, carried across advanceIndexes by its successor contract; channel clause at every send). Fixpoint step: a nil verdict is sent only when an iteration added no fact. The enumeration's stop reasons are under contract per return statement (no fact at all; odometer exhausted with the first index at the last fact; after an error was sent; no predicate). Derivation soundness at the level of heads: Rule.Apply only adds instances of the rule's head (same name and arity, constants of the head in place) and keeps what the target set held; QueryRule's answers are instances of the query's head; FactSet.InsertAll only adds elements of its argument; World.Run is proved to keep every initial fact in place and to add only instances of the head of some rule of the world (only_derived_facts_are_added) unless it returns the timeout error.",
    note="Rule.Apply, combine$1, World.Run/Run$1 and QueryRule are also under contract for well-formedness and frames (the source fact set is never written; new facts only grow). Not decided: completeness of the enumeration between start and exhaustion (every matching combination is produced - a statement over the whole sequence of channel values, which the producer/consumer rule does not carry; the thorough tier cross-checks it on the real code against a brute-force reference over a small corpus), that expressions filter exactly (Evaluate's full semantics), and minimality of the model.",
    technique=T, ref="4/C05"),
  "C06": dict(
